@@ -516,7 +516,7 @@ func sameLocalNameInTwoWireFiles(name string) *spec.Spec {
 	p3 := b.fn("NewApp", "", []int{s1, s2}, []int{app}, false, false)
 	b.inject("InitializeApp", app, p1, p2, p3)
 	b.s.ExtraWireFiles = map[string]string{
-		"wire_billing.go": "//go:build wireinject\n\npackage " + name + "\n\nimport (\n\t\"github.com/google/wire\"\n\t\"{{PKG}}/billing/v1\"\n)\n\nvar BillingSet = wire.NewSet(\n\twire.Value(v1.Options{Currency: \"EUR\", Retries: 3}),\n\tv1.NewClient,\n)\n",
+		"wire_billing.go":  "//go:build wireinject\n\npackage " + name + "\n\nimport (\n\t\"github.com/google/wire\"\n\t\"{{PKG}}/billing/v1\"\n)\n\nvar BillingSet = wire.NewSet(\n\twire.Value(v1.Options{Currency: \"EUR\", Retries: 3}),\n\tv1.NewClient,\n)\n",
 		"wire_shipping.go": "//go:build wireinject\n\npackage " + name + "\n\nimport (\n\t\"strings\"\n\n\t\"github.com/google/wire\"\n\t\"{{PKG}}/shipping/v1\"\n)\n\nvar ShippingSet = wire.NewSet(\n\twire.Value(v1.Limits{\n\t\tMaxKg: 30,\n\t\tZones: []v1.Zone{\n\t\t\t\"eu\",\n\t\t\tv1.DefaultZone(v1.Zone(\"us\")),\n\t\t},\n\t}),\n\twire.Value(v1.ZonePicker(func(country string) v1.Zone {\n\t\tif strings.EqualFold(country, \"us\") {\n\t\t\treturn v1.Zone(\"us\")\n\t\t}\n\t\treturn v1.Zone(\"eu\")\n\t})),\n\tv1.NewPlanner,\n)\n",
 	}
 	b.s.Features = append(b.s.Features, "same-local-package-name-in-two-wire-files-inside-value-expressions")
@@ -690,7 +690,7 @@ func corpusSpecs(prop string) []*spec.Spec {
 				fs = append(fs, unexportedForeign(fmt.Sprintf("ku04v%d", v), v))
 			}
 		}
-		return allInvocationModes(append(fs, append([]*spec.Spec{twinConfigs("k"+prop[1:]+"a", false), sameNamedPackages("k"+prop[1:]+"c"), foreignAliasSecondFile("k"+prop[1:]+"f")}, keywordSweepSpecs("kw"+prop[1:])...)...))
+		return allInvocationModes(append(fs, append([]*spec.Spec{twinConfigs("k"+prop[1:]+"a", false), sameNamedPackages("k" + prop[1:] + "c"), foreignAliasSecondFile("k" + prop[1:] + "f")}, keywordSweepSpecs("kw"+prop[1:])...)...))
 	case "C09":
 		return []*spec.Spec{spelledTwoWays("kt09s", false), spelledTwoWays("kt09a", true), suffixNamedFiles("kz09s", false), suffixNamedFiles("kz09a", true), aliasDeclaredFields("ka09s", false), aliasDeclaredFields("ka09a", true), setReferenceForms("ks09p", 0, false), setReferenceForms("ks09q", 0, true), setReferenceForms("ks09x", 1, false), setReferenceForms("ks09y", 1, true)}
 	case "C02", "C01", "C10", "C11":
@@ -716,8 +716,8 @@ func corpusSpecs(prop string) []*spec.Spec {
 				fs = append(fs, foreignThroughSibling(fmt.Sprintf("kf%s%da", prop[1:], k), k, true, 0), foreignThroughSibling(fmt.Sprintf("kf%s%db", prop[1:], k), k, true, 2))
 			}
 		}
-		fs = append(fs, []*spec.Spec{twinConfigs("k"+prop[1:]+"a", false), sameNamedPackages("k"+prop[1:]+"c"),
-			structValueAndPointer("k"+prop[1:]+"d", false, false), structValueAndPointer("k"+prop[1:]+"e", true, true), foreignAliasSecondFile("k"+prop[1:]+"f")}...)
+		fs = append(fs, []*spec.Spec{twinConfigs("k"+prop[1:]+"a", false), sameNamedPackages("k" + prop[1:] + "c"),
+			structValueAndPointer("k"+prop[1:]+"d", false, false), structValueAndPointer("k"+prop[1:]+"e", true, true), foreignAliasSecondFile("k" + prop[1:] + "f")}...)
 		switch prop {
 		case "C10":
 			return allInvocationModes(fs)
